@@ -132,3 +132,16 @@ func addrOf(e *internal.Element[int]) uint32 {
 	}
 	return uint32(e.Addr())
 }
+
+// VerifGenerateHeader runs frameHeader.GenerateHeader on a zeroed header and returns the bytes it produced.
+func VerifGenerateHeader(isServer, fin, compress bool, opcode uint8, length int) []byte {
+	var fh frameHeader
+	n, _ := fh.GenerateHeader(isServer, fin, compress, Opcode(opcode), length)
+	return append([]byte(nil), fh[:n]...)
+}
+
+// VerifParseHeader runs frameHeader.Parse on the given bytes and returns the declared payload length.
+func VerifParseHeader(b []byte) (int, error) {
+	var fh frameHeader
+	return fh.Parse(bytes.NewReader(b))
+}
